@@ -396,7 +396,58 @@ func clientEncodeTile(ls []*submitLeaf) []byte {
 
 // clientApply returns the served view for a case, the SCT to check (for op inclusion) and a
 // description of which parts were touched: covered says whether Merkle-covered content differs.
-func (g *clientEngine) clientApply(lg *clientLog, c *clientCase) (view map[string][]byte, sct clientSCT, err error) {
+func (g *clientEngine) clientApply(lg *clientLog, c *clientCase) (view map[string][]byte, sct clientSCT, gt *clientLog, err error) {
+	view, sct, err = g.clientApplyView(lg, c)
+	gt = lg
+	if err == nil && c.Tamper.Kind == "badlog-index" {
+		gt, sct, err = g.clientBadLog(lg, c)
+		if err == nil {
+			view = gt.view
+		}
+	}
+	return view, sct, gt, err
+}
+
+// clientBadLog is a log whose operator misbehaves: the tree (data tile, hash tile, root, a checkpoint
+// signed with the log key) consistently commits, at position A, to a leaf whose leaf_index extension
+// names another position. The SCT offered for it claims position A.
+func (g *clientEngine) clientBadLog(lg *clientLog, c *clientCase) (*clientLog, clientSCT, error) {
+	n := lg.n
+	if n < 2 || n >= 256 {
+		return nil, clientSCT{}, errors.New("bad-log family is built for one partial tile")
+	}
+	a := c.Tamper.A % n
+	j := (a + 1 + c.Tamper.B%(n-1)) % n
+	b := &clientLog{seed: lg.seed, n: n, key: lg.key, keyID: lg.keyID, origin: lg.origin, view: map[string][]byte{}}
+	for i, l := range lg.leaves {
+		cp := *l
+		if i == a {
+			cp.Extensions = []byte{0, 0, 5, 0, 0, 0, byte(j >> 8), byte(j)}
+		}
+		b.leaves = append(b.leaves, &cp)
+		b.hashes = append(b.hashes, submitLeafHash(submitMTL(&cp)))
+		b.scts = append(b.scts, clientSCT{LogID: lg.keyID, Timestamp: cp.Timestamp, Extensions: []byte{0, 0, 5, 0, 0, 0, byte(i >> 8), byte(i)},
+			Signature: clientSign(lg.key, submitSCTInput(&cp))})
+	}
+	b.root = submitMTH(b.hashes)
+	var ht []byte
+	for _, h := range b.hashes {
+		ht = append(ht, h[:]...)
+	}
+	b.view[submitTilePath("0", 0, n)] = ht
+	b.view[submitTilePath("data", 0, n)] = clientEncodeTile(b.leaves)
+	ts := uint64(1_700_000_900_000)
+	sig := append(binary.BigEndian.AppendUint64(nil, ts), clientSign(lg.key, clientSTHInput(int64(n), ts, b.root))...)
+	b.view["checkpoint"] = []byte(lg.origin + "\n" + fmt.Sprint(n) + "\n" + base64.StdEncoding.EncodeToString(b.root[:]) + "\n\n" +
+		"— " + lg.origin + " " + base64.StdEncoding.EncodeToString(append(binary.BigEndian.AppendUint32(nil, clientKeyHash(lg.origin, lg.keyID)), sig...)) + "\n")
+	sct := b.scts[0]
+	if c.Index >= 0 && int(c.Index) < n {
+		sct = b.scts[c.Index]
+	}
+	return b, sct, nil
+}
+
+func (g *clientEngine) clientApplyView(lg *clientLog, c *clientCase) (view map[string][]byte, sct clientSCT, err error) {
 	t := c.Tamper
 	view = clientCopy(lg.view)
 	n := lg.n
@@ -423,7 +474,7 @@ func (g *clientEngine) clientApply(lg *clientLog, c *clientCase) (view map[strin
 		view[dataKey(t.Tile)] = clientEncodeTile(ls)
 	}
 	switch t.Kind {
-	case "none":
+	case "none", "badlog-index":
 	// ---- data tiles
 	case "data-swap":
 		ls := leavesOf(t.Tile)
@@ -856,11 +907,12 @@ func (g *clientEngine) runCase(c *clientCase) (err error) {
 	if err != nil {
 		return err
 	}
-	view, sct, err := g.clientApply(lg, c)
+	view, sct, gt, err := g.clientApply(lg, c)
 	if err != nil {
 		g.stats.Count("skipped/" + c.Tamper.Kind)
 		return nil // the tamper does not apply to this log (e.g. too small)
 	}
+	lg = gt // the leaf list the tree head handed to the client commits to
 	cl, cleanup, err := g.newClient(lg, c, view)
 	if err != nil {
 		return err
@@ -964,6 +1016,9 @@ func (g *clientEngine) runCase(c *clientCase) (err error) {
 				if ok, why := clientCoveredEq(e, lg.leaves[c.Index]); !ok {
 					g.fail(c, "client-returned-unauthentic-entry", fmt.Sprintf("%s: Entry(%d) returned an entry that differs from the committed leaf: %s", name, c.Index, why))
 				}
+				if !e.RFC6962ArchivalLeaf && e.LeafIndex != c.Index {
+					g.fail(c, "client-entry-index-mismatch", fmt.Sprintf("%s: Entry(%d) returned an entry whose leaf index is %d", name, c.Index, e.LeafIndex))
+				}
 				if tlog.CheckRecord(proof, int64(lg.n), tlog.Hash(lg.root), c.Index, tlog.Hash(lg.hashes[c.Index])) != nil {
 					g.fail(c, "client-returned-bad-proof", fmt.Sprintf("%s: Entry(%d) returned a proof that does not prove the committed leaf", name, c.Index))
 				}
@@ -1004,7 +1059,8 @@ func (g *clientEngine) runCase(c *clientCase) (err error) {
 				want := lg.leaves[li]
 				d := sha256.Sum256(submitSCTInput(want))
 				s := sct.Signature
-				match = sct.Timestamp == want.Timestamp && len(s) > 4 && s[0] == 4 && s[1] == 3 && ecdsa.VerifyASN1(&lg.key.PublicKey, d[:], s[4:])
+				wantIdx, _ := want.LeafIndex()
+				match = wantIdx == li && sct.Timestamp == want.Timestamp && len(s) > 4 && s[0] == 4 && s[1] == 3 && ecdsa.VerifyASN1(&lg.key.PublicKey, d[:], s[4:])
 				if ok, why := clientCoveredEq(e, want); !ok {
 					g.fail(c, "client-returned-unauthentic-entry", fmt.Sprintf("%s: CheckInclusion returned an entry that differs from the committed leaf %d: %s", name, li, why))
 				}
@@ -1214,6 +1270,15 @@ func (g *clientEngine) generate(r *Rand, sizes []int, perKind int) []*clientCase
 				if k == 0 && w > 1 {
 					cs = append(cs, &clientCase{Seed: seed, N: n, Transport: "file", Op: "entry", Index: int64(tile*256 + (a+1)%w), Allow: allow, Tamper: tm})
 				}
+			}
+			if n >= 2 && n < 256 {
+				a := r.Intn(n)
+				tm := clientTamper{Kind: "badlog-index", A: a, B: r.Intn(1000)}
+				cs = append(cs, &clientCase{Seed: seed, N: n, Transport: tr(), Op: "entry", Index: int64(a), Tamper: tm},
+					&clientCase{Seed: seed, N: n, Transport: tr(), Op: "inclusion", Index: int64(a), Tamper: tm},
+					&clientCase{Seed: seed, N: n, Transport: "file", Op: "entry", Index: int64((a + 1) % n), Tamper: tm},
+					&clientCase{Seed: seed, N: n, Transport: "file", Op: "allentries", Tamper: tm},
+					&clientCase{Seed: seed, N: n, Transport: "file", Op: "checkpoint", Tamper: tm})
 			}
 			for _, kind := range clientHashTampers {
 				tm := clientTamper{Kind: kind, Level: r.Intn(2), Tile: r.Intn(3), A: r.Intn(100000), B: r.Intn(8)}
